@@ -178,7 +178,14 @@ def k_keyfunctions(ctx):
 
 def work(part, n):
     for _ in range(n):
-        prog = G.gen_pattern_program(part.rng) if part.rng.random() < 0.1 else G.gen_program(part.rng, maxlen=8)
+        r_ = part.rng.random()
+        if r_ < 0.2:
+            prog = G.gen_pattern_program(part.rng)
+        elif r_ < 0.35:
+            # selection-heavy programs: combinations of integer indexes, negative / positive steps, integer arrays, newaxis
+            prog = G.gen_program(part.rng, maxlen=8, families=["indexing"] * 6 + ["elementwise"], nstmts=part.rng.randint(1, 3))
+        else:
+            prog = G.gen_program(part.rng, maxlen=8)
         og = part.rng.random() < 0.5
         r0 = part.rng.random()
         executor = "adversarial" if r0 < 0.6 else ("threads" if (r0 < 0.95 or part.tier == "quick") else "processes")
@@ -203,10 +210,49 @@ def work(part, n):
                 part.fail("wrong-values", f"array {o}: values differ from NumPy ({executor}, optimize_graph={og})", desc)
 
 
+def index_sweep(part, n):
+    """single selections a[idx] on 1-4-d arrays: every combination of integer indexes, slices with positive / negative steps,
+    one integer array and newaxis that NumPy accepts - compared element by element"""
+    import cubed
+    import cubed.array_api as xp
+
+    T = G.ops()
+    spec = cubed.Spec(allowed_mem="200MB")
+    for _ in range(n):
+        nd = part.rng.choice([1, 2, 2, 3, 3, 3, 4])
+        shape = tuple(part.rng.randint(1, 6) for _ in range(nd))
+        chunks = G.gen_chunks(part.rng, shape)
+        kw = T["index"][1](part.rng, [shape])
+        an = np.arange(int(np.prod(shape)), dtype="float64").reshape(shape) + 1
+        try:
+            want = T["index"][3]([an], kw)
+        except Exception:
+            continue
+        desc = {"index_sweep": {"shape": shape, "chunks": chunks, "idx": kw["idx"]}}
+        part.evaluations += 1
+        kinds = "".join(sorted({e[0] if e[0] != "s" else ("-" if (e[3] or 1) < 0 else "s") for e in kw["idx"]}))
+        part.count("index-kinds:" + kinds)
+        try:
+            with warnings.catch_warnings():
+                warnings.simplefilter("ignore")
+                a = xp.asarray(an, chunks=chunks, spec=spec)
+                got = np.asarray(T["index"][2](xp, cubed, [a], kw).compute(optimize_graph=part.rng.random() < 0.5))
+        except Exception as e:
+            part.count("index-declined:" + type(e).__name__)
+            continue                # refusals and failures are C17's subject
+        part.nt(desc)
+        want = np.asarray(want)
+        if tuple(got.shape) != tuple(want.shape):
+            part.fail("wrong-shape", f"a[idx]: cubed shape {got.shape}, NumPy shape {want.shape}", desc)
+        elif not G.values_equal(got, want):
+            part.fail("wrong-values", "a[idx]: values differ from NumPy", desc)
+
+
 def run(ctx):
     warnings.filterwarnings("ignore")
     k_keyfunctions(ctx)
     pmap(ctx, work, [25] * (ctx.n(300, 10000) // 25), procs=12)
+    pmap(ctx, index_sweep, [50] * (ctx.n(600, 12000) // 50), procs=12)
 
 
 def search(ctx):
@@ -215,6 +261,18 @@ def search(ctx):
 
 def replay(ctx, obj):
     rp = obj.get("replay", obj)
+    if rp.get("index_sweep"):
+        import cubed
+        import cubed.array_api as xp
+        d = rp["index_sweep"]
+        T = G.ops()
+        an = np.arange(int(np.prod(d["shape"])), dtype="float64").reshape(d["shape"]) + 1
+        kw = {"idx": d["idx"]}
+        want = np.asarray(T["index"][3]([an], kw))
+        got = np.asarray(T["index"][2](xp, cubed, [xp.asarray(an, chunks=tuple(d["chunks"]), spec=cubed.Spec(allowed_mem="200MB"))], kw).compute())
+        ok = got.shape == want.shape and G.values_equal(got, want)
+        print("index", d["idx"], "equal to NumPy:", ok)
+        return 0 if ok else 1
     prog = rp.get("prog")
     if not prog:
         print(json.dumps(obj, indent=1, default=str)[:5000])
